@@ -412,3 +412,96 @@ Example C05_example_file :
   /\ print_file_tokens (to_symtab (dfile_symtab ProtoPrintFileExample.ex_imp (canon_file ProtoPrintFileExample.ex_file)))
        (canon_file ProtoPrintFileExample.ex_file) = ProtoPrintFileExample.ex_tokens.
 Proof. exact ProtoPrintFileExample.ex_file_ok. Qed.
+
+(* ---- (5) the extended descriptor (model/ProtoPrintFileX.v): what dfile leaves out -------------------------- *)
+From J5V.model Require Import ProtoPrintFileX.
+From J5V.proofs Require Import ProtoPrintFileXProofs.
+
+(* the whole-descriptor statement when the descriptor also carries the options on the key / value fields of
+   its synthetic map entries (protodesc keeps them, j5convert writes the item annotations of map:<item> there):
+   "every option and extension value" includes them. The printer model does not consult the table (types.go
+   printMessage skips IsMapEntry messages, printField writes map<K, V> from the kinds), the parser model
+   returns an empty one (protocompile's synthetic entry). *)
+Definition C05_token_statement_x : Prop :=
+  forall (imp : xsymtab) (D : dfilex), wf_dfilex imp D ->
+    let toks := print_file_tokens_x (x_symtab imp D) D in
+    exists D', parse_file_tokens_x imp toks = Some D'
+      /\ desc_equiv_x D D'
+      /\ wf_dfilex imp D'
+      /\ print_file_tokens_x (x_symtab imp D') D' = toks.
+
+(* ... is false of the code as it is (live known finding: options on the value field of a map entry) *)
+Theorem C05_token_statement_x_refuted : ~ C05_token_statement_x.
+Proof. exact token_statement_x_refuted. Qed.
+Print Assumptions C05_token_statement_x_refuted.
+
+(* the witness: message Foo { map<string, string> ids = 1; } with (j5.ext.v1.field).key.format = FORMAT_ID62 and
+   the id62 pattern on Foo.IdsEntry.value (what j5convert emits for `field ids map:key:id62`): the printed
+   tokens are read back, with an empty table, as a descriptor that is not equivalent *)
+Theorem C05_map_entry_witness :
+  wf_dfilex w_imp w_filex
+  /\ exists D', parse_file_tokens_x w_imp (print_file_tokens_x (x_symtab w_imp w_filex) w_filex) = Some D'
+       /\ x_entries D' = [] /\ ~ desc_equiv_x w_filex D'.
+Proof. exact map_entry_witness. Qed.
+Print Assumptions C05_map_entry_witness.
+
+(* ... and holds for a descriptor EXACTLY when no map entry field carries an option (loses_entry_options is
+   evaluated on every file case of a run and must equal the oracle's verdict for that file) *)
+Theorem C05_token_roundtrip_x_iff : forall imp D, wf_dfilex imp D ->
+  let toks := print_file_tokens_x (x_symtab imp D) D in
+  (exists D', parse_file_tokens_x imp toks = Some D' /\ desc_equiv_x D D'
+              /\ wf_dfilex imp D' /\ print_file_tokens_x (x_symtab imp D') D' = toks)
+  <-> loses_entry_options D = false.
+Proof. exact roundtrip_x_iff. Qed.
+Print Assumptions C05_token_roundtrip_x_iff.
+
+Theorem C05_token_roundtrip_x_partial : forall imp D, wf_dfilex imp D -> loses_entry_options D = false ->
+  let toks := print_file_tokens_x (x_symtab imp D) D in
+  exists D', parse_file_tokens_x imp toks = Some D' /\ desc_equiv_x D D'
+             /\ wf_dfilex imp D' /\ print_file_tokens_x (x_symtab imp D') D' = toks.
+Proof. exact roundtrip_x_partial. Qed.
+Print Assumptions C05_token_roundtrip_x_partial.
+
+Theorem C05_map_entry_options_lost : forall imp D D', wf_dfile imp (x_file D) ->
+  parse_file_tokens_x imp (print_file_tokens_x (x_symtab imp D) D) = Some D' -> x_entries D' = [].
+Proof. exact entry_options_lost. Qed.
+Print Assumptions C05_map_entry_options_lost.
+
+Example C05_example_x : wf_dfilex w_imp w_filex_plain /\ loses_entry_options w_filex_plain = false.
+Proof. exact w_plain_ok. Qed.
+
+(* file-level options as typed values: a bool option is written true / false, a string option as the text-format
+   literal of its bytes (printFile since /repo b69d449); the consumer reads the same typed value back *)
+Theorem C05_file_option_roundtrip : forall v, fopt_val_ok v -> fopt_read (fopt_token v) = Some v.
+Proof. exact fopt_roundtrip. Qed.
+Print Assumptions C05_file_option_roundtrip.
+
+Theorem C05_file_options_roundtrip : forall imp D, wf_dfile imp D -> fopts_typed_b D = true ->
+  exists D', parse_file_tokens imp (print_file_tokens (to_symtab (dfile_symtab imp D)) D) = Some D'
+    /\ map (fun o => (fst o, fopt_read (snd o))) (d_fopts D') = map (fun o => (fst o, fopt_read (snd o))) (d_fopts D)
+    /\ Forall (fun o => exists v, fopt_read (snd o) = Some v /\ snd o = fopt_token v /\ fopt_val_ok v) (d_fopts D').
+Proof. exact file_options_roundtrip. Qed.
+Print Assumptions C05_file_options_roundtrip.
+
+(* the printer before b69d449 (value raw between the quotes): the value a, double quote, b is not read back *)
+Theorem C05_file_option_raw_previous_refuted :
+  fopt_val_ok raw_witness /\ fopt_read (fopt_token_raw raw_witness) <> Some raw_witness.
+Proof. exact fopt_raw_refuted. Qed.
+Print Assumptions C05_file_option_raw_previous_refuted.
+
+(* ---- (6) the property over the text for a renderer ------------------------------------------------------ *)
+(* C05_full_statement with scan := the lexer model and the premise in its computable form: for every renderer
+   whose output is a layout of the model's comment-free tokens (evaluated on the bytes PrintFile wrote, for
+   every file case of a run, original and re-parsed descriptor), the text is read back as a descriptor
+   equivalent to D up to comments, and rendering that descriptor again scans to the same tokens. What
+   separates this from C05_full_statement: comments (erase_dfile) and byte equality of the second text
+   (token equality here); both need the printer's separator choice as a function, which is not modelled. *)
+Definition C05_full_layout_statement (render : xsymtab -> dfile -> list N) : Prop :=
+  forall imp D, wf_dfile imp D ->
+    exists D0, read_text imp (render imp D) = Some (erase_dfile D0)
+      /\ desc_equiv D D0 /\ wf_dfile imp D0
+      /\ scan_text (render imp D0) = scan_text (render imp D).
+
+Theorem C05_full_layout : forall render, renders_layout render -> C05_full_layout_statement render.
+Proof. exact full_layout. Qed.
+Print Assumptions C05_full_layout.
